@@ -15,8 +15,12 @@
            track data" when the track is not registered in the object the table now holds
    Every unsynchronised access is a two-step window so that an overlap is a reachable STATE (NoConflict).
    A write under ch.mu (reg) is atomic but conflicts with an open unlocked read window of the same table.
-   Fixed = TRUE is the proposed repair (proposed_fixes/C19-*.diff): AddChannel re-checks under the write lock,
-   the stream table is accessed under a mutex, trDatas is read under ch.mu.RLock.
+   Fixed = TRUE is the CURRENT code (since /repo commits 31ea68b, 50199e3, f290dd1; patches kept in
+   proposed_fixes/C19-*.diff): AddChannel re-checks under the write lock, the stream table is accessed under a
+   mutex, trDatas is read under ch.mu.RLock.  Fixed = FALSE is the design as it was written before; its
+   counterexamples (spec/mc/ReceiverConcImpl_cex_*.cfg) are kept as documentation and its behaviours are still
+   what the generator ReceiverConcGen replays (the gates did not move relative to the labels, and these are the
+   adversarial schedules).
    Channels: "A" (HandlersA) and "B" (HandlersB, may be empty). *)
 EXTENDS Integers, Sequences, FiniteSets, TLC
 CONSTANTS HandlersA, HandlersB, Fixed, Media
